@@ -179,6 +179,34 @@ def shape(scn):
                                                          " ; ".join(parts))
 
 
+def eq_preempted(scn, times):
+    """does some rule atom 'TIME = th' / 'CLOCKTIME = th' evaluate differently under WNTR's reading (th in (previous
+    SOLVE, e]) than under EPANET's (th in (e - rule step, e]) at some rule instant e, given the accepted solve times?"""
+    T = sorted(set(times))
+    Rs = scn["Rs"]
+
+    def atoms(c):
+        return [c] if c["op"] == "atom" else atoms(c["a"]) + atoms(c["b"])
+    import bisect
+    for r in scn["rules"]:
+        for a in atoms(r["cond"]):
+            if a["rel"] != "=":
+                continue
+            if a["t"] == "sim":
+                inst = [a["thr"]]
+            else:
+                f = (a["thr"] - scn["Start"]) % 86400
+                inst = list(range(f, scn["Dur"] + 1, 86400))
+            for e in range(Rs, scn["Dur"] + 1, Rs):
+                i = bisect.bisect_left(T, e)
+                prev = T[i - 1] if i > 0 else -1
+                ep = any(e - Rs < th <= e for th in inst)
+                wn = any(prev < th <= e for th in inst)
+                if ep != wn:
+                    return True
+    return False
+
+
 def kinds(scn):
     k = set()
     for c in scn["ctl"]:
@@ -221,14 +249,16 @@ def main(tier, replay):
     # M: the algorithm refines the declarative semantics on every determinate scenario
     for s in det:
         if not exp[s["id"]]["ok"]:
-            ck.violation("C04.model_refines", shape(s), {"scn": s, "expected": exp[s["id"]]})
+            tag = " [eq-atom window differs]" if eq_preempted(s, exp[s["id"]]["mt"]) else ""
+            ck.violation("C04.model_refines", shape(s) + tag, {"scn": s, "expected": exp[s["id"]]})
     with cf.ProcessPoolExecutor(max_workers=common.NCPU) as ex:
         obs = list(ex.map(observe, det, chunksize=16))
     kinds_seen = {}
     for s, o in zip(det, obs):
         e = exp[s["id"]]
         for clause, detail in compare(s, e, o):
-            ck.violation(clause, shape(s) + " :: " + detail, {"scn": s, "expected": e, "observed": o})
+            tag = " [eq-atom window differs]" if eq_preempted(s, o.get("times", [])) else ""
+            ck.violation(clause, shape(s) + tag + " :: " + detail, {"scn": s, "expected": e, "observed": o})
         ck.nontrivial(shape(s))
         for k in kinds(s):
             kinds_seen[k] = kinds_seen.get(k, 0) + 1
@@ -250,8 +280,8 @@ def main(tier, replay):
     # binding self-test: a perturbed expectation must be rejected by the comparison
     if det and not replay:
         s, o = det[0], obs[0]
-        e = json.loads(json.dumps(exp[s["id"]]))
-        e["req"] = e["req"] + [e["req"][-1] - 7]
-        if not compare(s, e, o):
-            raise common.MachineryError("binding self-test: perturbed expectation accepted")
+        o2 = dict(o, times=o["times"][:-1], st=o["st"][:-1])          # drop the last reported row
+        o3 = dict(o, st=[[1 - x for x in o["st"][0]]] + o["st"][1:])  # flip the first reported statuses
+        if "exc" in o or not compare(s, exp[s["id"]], o2) or not compare(s, exp[s["id"]], o3):
+            raise common.MachineryError("binding self-test: corrupted observation accepted")
     return ck.finish()
